@@ -143,15 +143,22 @@ func (c *StringScanner) PeekColumn() int {
 // Unread puts the specified character to the top of the stream.
 func (c *StringScanner) Unread() {
 	// Skip if we are at the beginning
-	if c.position < -1 {
+	if c.position < 0 {
 		return
 	}
 
 	// Update the current position
+	charAt := c.charAt(c.position)
+	atEof := c.position >= len(c.content)
 	c.position--
 
+	// Unreading the end-of-input slot does not change line and column
+	if atEof {
+		return
+	}
+
 	// Update line and columns (optimization)
-	if c.column > 0 {
+	if c.isColumn(charAt) {
 		c.column--
 		return
 	}
@@ -161,7 +168,7 @@ func (c *StringScanner) Unread() {
 	c.column = 0
 
 	charBefore := rune(-1)
-	charAt := rune(-1)
+	charAt = rune(-1)
 	charAfter := c.charAt(0)
 
 	for position := 0; position <= c.position; position++ {
